@@ -1,4 +1,4 @@
-from sa.selftest.harness import M, T
+from sa.selftest.harness import M, T, Variant
 
 F = "sharepoint2text/parsing/extractors/util/omml_to_latex.py"
 OM = "sharepoint2text/parsing/extractors/util/omml_to_latex.py"
@@ -26,6 +26,7 @@ MUTANTS = [
     M("pptx-first-omath-only", "sharepoint2text/parsing/extractors/ms_modern/pptx_extractor.py", "        for omath in omath_para.findall(M_OMATH):\n            omath_in_para.add(id(omath))\n            latex = omml_to_latex(omath)\n            if latex.strip():\n                formulas.append((latex, True))\n", "        omath = omath_para.find(M_OMATH)\n        if omath is not None:\n            omath_in_para.add(id(omath))\n            latex = omml_to_latex(omath)\n            if latex.strip():\n                formulas.append((latex, True))\n", "C19-LIN"),
 ]
 TWINS = [
+    T("omml-default-under-is-none-local", "sharepoint2text/parsing/extractors/util/omml_to_latex.py", "            left = beg_chr.get(f\"{M_NS}val\", \"(\") if beg_chr is not None else \"(\"\n", "            left = \"(\"\n            if beg_chr is not None:\n                left = beg_chr.get(f\"{M_NS}val\", \"(\")\n"),
     T("delimiter-chars-via-own-dpr", F, '            beg_chr = elem.find(f"{M_NS}dPr/{M_NS}begChr")\n            end_chr = elem.find(f"{M_NS}dPr/{M_NS}endChr")\n', '            dpr = elem.find(f"{M_NS}dPr")\n            beg_chr = dpr.find(f"{M_NS}begChr") if dpr is not None else None\n            end_chr = dpr.find(f"{M_NS}endChr") if dpr is not None else None\n'),
     T("rename-operand", F, '            base = elem.find(f"{M_NS}e")\n            sup = elem.find(f"{M_NS}sup")\n            base_text = process_element(base)\n            sup_text = process_element(sup)\n            return f"{base_text}^{{{sup_text}}}"', '            b = elem.find(f"{M_NS}e")\n            s = elem.find(f"{M_NS}sup")\n            bt = process_element(b)\n            st = process_element(s)\n            return f"{bt}^{{{st}}}"'),
     T("concat-instead-of-fstring", F, 'return f"\\\\overline{{{content_text}}}"', 'return "\\\\overline{" + content_text + "}"'),
